@@ -219,6 +219,53 @@ def twin_block_values(flag: bool, num: int, text: str, raise_inside: bool, set_i
     return check_block_values(flag, num, text, raise_inside, set_inside)
 
 
+# ---------------------------------------------------------------------------- values that compare equal but are different objects
+def _strict_same(a: Dict[str, Any], b: Dict[str, Any]) -> bool:
+    if len(a) != len(b):
+        return False
+    for k in b:
+        if k not in a or type(a[k]) is not type(b[k]) or a[k] != b[k]:
+            return False
+        if isinstance(b[k], float) and str(a[k]) != str(b[k]):  # -0.0 vs 0.0
+            return False
+    return True
+
+
+def _equal_distinct(kind: int, via_set: bool, raise_inside: bool) -> bool:
+    """The previous value and the value inside the block compare equal as numbers but are different objects (1 / True, 0 / False,
+    1.0 / 1, -0.0 / 0.0): leaving the block must put the *previous* object back, by normal exit and by exception."""
+    pairs = [(1, True), (True, 1), (0, False), (False, 0.0), (1.0, 1), (-0.0, 0.0), (0.0, -0.0), (True, 1.0)]
+    before_v, inside_v = pairs[kind]
+    opt = Opt()
+    opt.set_options(**{K2: before_v})
+    before = opt.get_options()
+    try:
+        with opt.global_options(**({} if via_set else {K2: inside_v})):
+            if via_set:
+                opt.set_options(**{K2: inside_v})
+            if raise_inside:
+                raise Boom()
+    except Boom:
+        pass
+    return _strict_same(opt.get_options(), before)
+
+
+def check_equal_distinct(kind: int, via_set: bool, raise_inside: bool) -> bool:
+    """
+    pre: 0 <= kind <= 7
+    post: _
+    """
+    return _equal_distinct(kind, via_set, raise_inside)
+
+
+def twin_equal_distinct(kind: int, via_set: bool, raise_inside: bool) -> bool:
+    """
+    pre: 0 <= kind <= 7
+    post: not _
+    """
+    return _equal_distinct(kind, via_set, raise_inside)
+
+
 # ---------------------------------------------------------------------------- what the block hands out is a copy
 def _yielded(v: bool, s0: bool, s1: bool, empty: bool, new_key: bool, raise_inside: bool, set_inside: bool) -> bool:
     """The dict a block yields (``with global_options(...) as opts``) is the caller's: writing to it -- also in a block entered
